@@ -167,6 +167,13 @@ def session_ops(kind):
     ops["remove_average"] = call("remove_average")
     ops["remove_poly"] = call("remove_poly", 1)
     ops["reset_temp"] = lambda c: c.obj.reset_values(np.array(c.obj.values, dtype=float) * 0.9 + 0.01)
+    def reset_rejected(c):
+        try:
+            c.obj.reset_values([[0.1, 0.2, 0.3], [0.4, 0.5]])         # ragged: cannot become a numeric record
+        except Exception:
+            pass
+
+    ops["reset_rejected"] = reset_rejected
     ops["read_values"] = lambda c: c.obj.values
     ops["read_derived"] = read_derived
     if kind == "AccSignal":
@@ -340,12 +347,29 @@ def pure_calls():
     A(("stockwell.transform_slow(ith=1)", ["v"], lambda v: stockwell.transform_slow(v[:40], ith=1)))
     A(("multiple.compute_rotated(func, offset)", ["asig", "asig2"], lambda s, s2: multiple.compute_rotated(s, s2, angle_off_ns=25.0, func=im.calc_cav, points=5)))
     A(("multiple.compute_rotated(array-valued parameter)", ["asig", "asig2"], lambda s, s2: multiple.compute_rotated(s, s2, parameter="velocity", points=3)))
+    # functions that RETURN a signal object: the result is then changed IN PLACE (the inputs may not move with it)
+    def _mutated(o):
+        with warnings.catch_warnings():
+            warnings.simplefilter("ignore")
+            if hasattr(o, "rebase_displacement"):
+                o.rebase_displacement()
+                o.set_zero_residual_velocity()
+            v = o.values
+            if isinstance(v, np.ndarray) and v.dtype.kind == "f":
+                v += 1.0
+        return np.array(o.values)
+    for ang_ in (0.0, 90.0, 360.0, 37.0):
+        A(("multiple.combine_at_angle(%g) -> result changed in place" % ang_, ["asig", "asig2"],
+           (lambda t_: (lambda s, s2: _mutated(multiple.combine_at_angle(s, s2, t_))))(ang_)))
+    A(("tp.interp_to_approx_dt(same step) -> result changed in place", ["asig"], lambda s: _mutated(tp.interp_to_approx_dt(s, DT, even=False))))
+    A(("tp.resample_to_approx_dt(same step) -> result changed in place", ["asig"], lambda s: _mutated(tp.resample_to_approx_dt(s, DT, even=False))))
+    A(("fq.fas2signal -> result changed in place", ["fa"], lambda fa: _mutated(fq.fas2signal(fa, DT, stype="acc-signal"))))
     A(("Signal(...)", ["v"], lambda v: eqsig.Signal(v, DT).values))
     A(("AccSignal(...).derived", ["v"], lambda v: (lambda o: (o.velocity, o.displacement, o.fa_spectrum, o.s_a))(eqsig.AccSignal(v, DT, response_times=P[1:]))))
     return L
 
 
-SHAPES = ["generic", "zero_start_down", "zero_start_up", "plateaus", "leading_zeros", "negative_offset"]
+SHAPES = ["generic", "zero_start_down", "zero_start_up", "plateaus", "leading_zeros", "negative_offset", "explicit_state"]
 
 
 def make_env(dtype, container, seed, shape="generic"):
@@ -379,6 +403,16 @@ def make_env(dtype, container, seed, shape="generic"):
         return a.tolist() if container == "list" else a
     asig = eqsig.AccSignal(x, DT, response_times=np.array([0.1, 0.4, 1.0]))
     asig2 = eqsig.AccSignal(y, DT)
+    if shape == "explicit_state":
+        # the caller generated the derived quantities explicitly with settings of their own: an analysis function may not
+        # replace or discard them
+        with warnings.catch_warnings():
+            warnings.simplefilter("ignore")
+            asig.gen_response_spectrum(xi=0.2, min_dt_ratio=1)
+            asig.gen_fa_spectrum(p2_plus=1)
+            asig.gen_smooth_fa_spectrum(band=100)
+            asig.generate_displacement_and_velocity_series(trap=False)
+            asig2.gen_response_spectrum(xi=0.0)
     env = {"v": wrap(x.copy()), "w": wrap(y.copy()), "asig": asig, "asig2": asig2,
            "per": wrap(np.array([0.0, 0.05, 0.3, 1.0])),
            "ff": np.array(asig.fa_freqs), "fa": np.array(asig.fa_spectrum), "sf": np.logspace(-0.3, 1.3, 9),
